@@ -28,6 +28,7 @@ mod c06;
 mod c08;
 mod c09;
 mod c03; // C03
+mod c03cov;
 
 use std::io::{BufRead, Write};
 
